@@ -546,4 +546,27 @@ def lengthValue (objs : List (Nat × LenObj)) (v : Option LenObj) : Option Int :
     | .int n => some n
     | _ => some 0
 
+/-! ## `PDFStream.get_any` and the keys of `get_filters` (round 6) -/
+
+/-- `PDFStream.get_any(names)`: the value of the first of `names` that is a key of the stream
+dictionary (`attrs`: a dictionary, keys unique); `none` = the default. -/
+def getAny {α : Type} : List Bytes → List (Bytes × α) → Option α
+  | [], _ => none
+  | n :: ns, attrs =>
+    match attrs.find? (fun p => p.1 == n) with
+    | some p => some p.2
+    | none => getAny ns attrs
+
+/-- `PDFStream.get_filters` from the stream dictionary: `F` before `Filter`, `DP` before `DecodeParms`
+before `FDecodeParms` (`Gen.Filters.FILTER_KEYS` / `PARMS_KEYS`, translated); the defaults `[]` / `{}`
+behave like absent keys. -/
+def streamFilters (fattrs : List (Bytes × FilterVal)) (pattrs : List (Bytes × ParmsVal)) :
+    List (Bytes × Option Parms) :=
+  getFilters ((getAny FILTER_KEYS fattrs).getD .absent) ((getAny PARMS_KEYS pattrs).getD .absent)
+
+/-- `PDFStream.decode` from the stream dictionary (`get_filters` reads the keys). -/
+def streamDecodeDict (inflate : Bytes → Bytes) (fattrs : List (Bytes × FilterVal)) (pattrs : List (Bytes × ParmsVal))
+    (raw : Bytes) : Except Err Bytes :=
+  streamDecode inflate ((getAny FILTER_KEYS fattrs).getD .absent) ((getAny PARMS_KEYS pattrs).getD .absent) raw
+
 end PdfVerif.Filters
